@@ -61,6 +61,14 @@ def get(prog):
         for fn, args in ((ITEM, (grammar_ai.PARSER, grammar_ai.B_F)), (STMT, (grammar_ai.PARSER,))):
             if fn in prog.bodies:
                 probe_keys[(fn, pr)] = ai.run(fn, win=w, args=args)
+    # ---- expression-start probes (C04.1): lhs() per first token
+    LHS = "oq3_parser::grammar::expressions::lhs"
+    lhs_keys = {}
+    if LHS in prog.bodies:
+        for kbit in grammar_ai.bits(A):
+            for pref in (grammar_ai.B_F, grammar_ai.B_T):
+                restr = ("agg", "oq3_parser::grammar::expressions::Restrictions", 0, (pref,))
+                lhs_keys[(ai.kname[kbit], pref[1])] = ai.run(LHS, win=((1 << kbit), A, A, A, 0, 0), args=(grammar_ai.PARSER, restr))
     r = GResult()
     r.cache_hit = False
     r.wall = time.time() - t0
@@ -108,6 +116,10 @@ def get(prog):
             st.extend(adj.get(x, ()))
         outs = sorted(set((o[1], o[2]) for o in ai.memo[k0]))
         r.dispatch[(fn, pr)] = {"handlers": sorted(set(k[0] for k in seen)), "outs": outs}
+    r.lhs_probe = {}
+    for (kn, pref), k0 in lhs_keys.items():
+        outs = ai.memo[k0]
+        r.lhs_probe[(kn, pref)] = sorted(set((o[5][0] == "agg" and o[5][2] == 1, o[2], o[1]) for o in outs))   # (returns Some, error, consumed)
     r.callargs = {k: sorted(v, key=repr) for k, v in ai.callargs.items()}
     r.memo = {k: sorted(v, key=repr) for k, v in ai.memo.items()}
     r.rootkey = rootkey
